@@ -16,7 +16,7 @@ import (
 type client struct {
 	id     string
 	path   string
-	closed *bool
+	closed func() bool
 	inst   any // *path it attached to
 }
 
@@ -34,7 +34,7 @@ func ReloadHistoryBody(confs []*conf.Conf, labels []string) func() {
 				// a publisher, if nobody publishes there yet and the name resolves
 				has := false
 				for _, c := range clients {
-					if c.path == name && strings.HasPrefix(c.id, "P") && !*c.closed {
+					if c.path == name && strings.HasPrefix(c.id, "P") && !c.closed() {
 						has = true
 					}
 				}
@@ -49,11 +49,11 @@ func ReloadHistoryBody(confs []*conf.Conf, labels []string) func() {
 				if err != nil {
 					continue
 				}
-				clients = append(clients, &client{id: pub.ID, path: name, closed: &pub.Closed, inst: core.VerifSnapPath(res.Path).Ptr})
+				clients = append(clients, &client{id: pub.ID, path: name, closed: pub.Closed, inst: core.VerifSnapPath(res.Path).Ptr})
 				r := &Rdr{ID: fmt.Sprintf("R%s%d", name, step)}
 				rres, _, err := pm.Read(r, name, m, f)
 				if err == nil {
-					clients = append(clients, &client{id: r.ID, path: name, closed: &r.Closed, inst: core.VerifSnapPath(rres.Path).Ptr})
+					clients = append(clients, &client{id: r.ID, path: name, closed: r.Closed, inst: core.VerifSnapPath(rres.Path).Ptr})
 				}
 			}
 		}
@@ -142,10 +142,10 @@ func ReloadHistoryBody(confs []*conf.Conf, labels []string) func() {
 					if c.inst != b.Ptr {
 						continue
 					}
-					if same && *c.closed {
+					if same && c.closed() {
 						viol("kept-path-lost-client", "path %q was kept but its client %s was closed", n, c.id)
 					}
-					if !same && !*c.closed {
+					if !same && !c.closed() {
 						viol("dropped-path-kept-client", "path %q was recreated or dropped but its client %s was not closed", n, c.id)
 					}
 				}
@@ -197,7 +197,7 @@ func BackToBackBody(c0, c1, c2 *conf.Conf, withReader bool) func() {
 				default:
 					vsched.Log("final conf=other")
 				}
-				vsched.Log("final closedA=%v", pub.Closed)
+				vsched.Log("final closedA=%v", pub.Closed())
 			}
 		}
 		pm.Close()
